@@ -7,6 +7,7 @@ use super::{
     Hinting, Outline,
 };
 
+pub use super::deltas::verif_hooks::interpolate_deltas_fixed;
 pub use super::hint::verif_hooks::hint_arith;
 pub use super::hint::verif_hooks::hint_round_ops;
 
